@@ -4,7 +4,7 @@ from hypothesis import strategies as st
 
 from vlib import strategies as vs
 from vlib.models.adwin import SCALE, AdwinModel
-from vlib.runner import SubCheck, Violation, sut
+from vlib.runner import Decoy, SubCheck, Violation, sut
 from vlib.tolerant import Forker
 
 PKEYS = ("delta", "max_buckets", "new_sample_thresh", "window_size_thresh", "subwindow_size_thresh", "conservative_bound")
@@ -34,11 +34,13 @@ def check_model(case, ctx):
     xs = case["xs"]
     with sut(detector="ADWIN"):
         det = ADWIN(**p)
+    decoy = Decoy(lambda: ADWIN(**p), lambda d, v: d.update(v))
     fk = Forker(AdwinModel(*[p[k] for k in PKEYS]), copier=lambda m: m.clone())
     ndrift = 0
     for i, x in enumerate(xs):
         k = int(round(x * SCALE))
         assert k / SCALE == x, "generator must stay on the grid"
+        decoy.step(40.0 - x)
         with sut(detector="ADWIN"):
             det.update(x)
             obs = {
